@@ -64,6 +64,41 @@ Proof.
   - apply sort_sorted.
 Qed.
 
+(* the pairs for which _evaluate is called: accepted by every checker and falling in a lag *)
+Definition evaluated (cf : cfg) (d : dirp) (p : sample * sample) : bool :=
+  match isOK d (is_asym (c_calc cf)) (geo_pair d (fst p) (snd p)) with
+  | Rej => false
+  | Acc _ => if c_dateChk cf && negb (date_ok d (fst p) (snd p)) then false
+             else match lag_rank d (g_d2 (geo_pair d (fst p) (snd p))) with Some _ => true | None => false end
+  end.
+Lemma flat_map_filter {A} (f : A -> bool) l : flat_map (fun x => if f x then [x] else []) l = filter f l.
+Proof. induction l as [|x r IH]; [reflexivity|]. cbn. destruct (f x); cbn; rewrite IH; reflexivity. Qed.
+Lemma reached1_evaluated cf d n l :
+  0 < d_dpas d -> 0 <= d_tol d -> Forall (same_dim n) l ->
+  filter (evaluated cf d) (reached1 cf d l) =
+  filter (evaluated cf d) (filter (unskipped cf) (loop_pairs (c_dateLoop cf) [] (sort_x1 l))).
+Proof.
+  intros Hdp Htol Hl.
+  rewrite <- (flat_map_filter (evaluated cf d) (reached1 cf d l)).
+  rewrite <- (flat_map_filter (evaluated cf d) (filter (unskipped cf) _)). unfold reached1.
+  apply (outer1_P cf (maxdist d) (fun p => if evaluated cf d p then [p] else []) (same_dim n)).
+  - intros a b Ha Hb Hfar.
+    assert (E : evaluated cf d (a, b) = false); [|rewrite E; reflexivity].
+    pose proof (g_d2_ge_dx1 d n a b Ha Hb) as Hge.
+    assert (Hd2 : 0 <= g_d2 (geo_pair d a b)) by (apply (g_d2_nonneg d)).
+    assert (HL : lag_rank d (g_d2 (geo_pair d a b)) = None).
+    { destruct Hfar as [H|H].
+      - apply (beyond_maxdist_no_lag d Hdp Htol _ (x1 b - x1 a) Hd2 Hge H).
+      - apply (beyond_maxdist_no_lag d Hdp Htol _ (x1 a - x1 b) Hd2); [|exact H].
+        setoid_replace ((x1 a - x1 b) * (x1 a - x1 b)) with ((x1 b - x1 a) * (x1 b - x1 a)) by ring. exact Hge. }
+    unfold evaluated. cbn [fst snd]. rewrite HL.
+    destruct (isOK d (is_asym (c_calc cf)) (geo_pair d a b)); [reflexivity|].
+    destruct (c_dateChk cf && negb (date_ok d a b)); reflexivity.
+  - constructor.
+  - eapply Permutation_Forall; [symmetry; apply sort_perm|exact Hl].
+  - apply sort_sorted.
+Qed.
+
 Lemma unskipped_pair cf p : unskipped cf p = usable cf (fst p) && usable cf (snd p).
 Proof. unfold unskipped. rewrite !unskipped_usable. reflexivity. Qed.
 
